@@ -1457,6 +1457,7 @@ func safely(c *mon.Case, what string, fn func()) {
 func TestCheck(t *testing.T) {
 	r := mon.Start(t, "C15")
 	defer r.Finish()
+	r.SpinWatch(memwire.BytesMoved)
 	r.Note("rule", "Real ScrambleSuit client (transports API: ClientFactory(stateDir) -> ParseArgs(password) -> Dial) against ref/ss, an independent conforming server, over memwire in a synctest bubble. "+
 		"(A) UniformDH response padding x segmentation: for every padding length in the tier's set, the response is delivered cut at each offset of its last 48 bytes (M_S | MAC_S plus 16 bytes before), for a subset of paddings at EVERY offset, plus PRNG two-cut splits and cuts inside NewTicket/PRNG-seed packets coalesced behind the response; a segment is written only after the client consumed the previous one and is blocked again (synctest.Wait), or (alternating) the whole stream is written once and reads are capped at the cut offsets; Dial must return success, then a little data both ways must be exact. "+
 		"(B) streams: grid of 11 chunk policies x 3 scenarios (client first / server payload, ticket and seed coalesced with the response / long idle gaps), one UniformDH and one ticket connection each, concurrent reader and writer goroutines on the client, PRF streams both ways, server packets of varied payload/padding split with padding-only, seed and ticket packets interleaved. Stream equality is judged at quiescence AFTER the reference server has sent one further padding-only packet: unlike C01 the statement does not promise delivery without further traffic, and this client decodes bytes that arrived together with the handshake response only on its next network read. "+
